@@ -82,7 +82,11 @@ Fixpoint int_body (l : str) (acc : Z) (last_us : bool) : option Z :=
       | None => if ceqb c "_" && negb last_us then int_body r acc true else None
       end
   end.
+(* int() refuses numerals of more than sys.get_int_max_str_digits() = 4300 digits (ValueError) *)
+Definition max_str_digits : nat := 4300.
+Definition count_digits (s : str) : nat := List.length (filter is_digit s).
 Definition py_int (s : str) : option Z :=
+  if (max_str_digits <? count_digits s)%nat then None else
   match strip_by is_space_c s with
   | [] => None
   | c :: r =>
